@@ -120,6 +120,26 @@ theorem drop_category_fraction (num den : Nat) (hden : den = 100 ∨ den = 10000
       _ = min num den * N * 1000000 := by ring
   exact Nat.eq_of_mul_eq_mul_right (by norm_num) this
 
+/-- After ANY sequence of EDS updates the droppers in use are exactly those of the LATEST drop
+    configuration (category by category, in order): an update that changes the rate of an existing
+    category replaces its dropper. -/
+theorem droppers_follow_latest_config (us : List (List (String × Nat × Nat))) (ovs : List (String × Nat × Nat)) :
+    ((us ++ [ovs]).foldl handleDrops {}).drops = droppersOf ovs := by
+  have hinv : ∀ (us : List (List (String × Nat × Nat))) (s : DropState),
+      s.drops = s.cats.map (fun c => newDropper c.rpm) →
+      (us.foldl handleDrops s).drops = (us.foldl handleDrops s).cats.map (fun c => newDropper c.rpm) := by
+    intro us
+    induction us with
+    | nil => intro s h; exact h
+    | cons u us ih =>
+      intro s h
+      obtain ⟨h1, h2⟩ := handleDrops_inv s h u
+      apply ih
+      rw [h2, h1]
+      simp [droppersOf, List.map_map, Function.comp_def]
+  rw [List.foldl_append]
+  exact (handleDrops_inv _ (hinv us {} rfl) ovs).2
+
 /-- Category drops happen only while the child policy is READY. -/
 theorem drops_only_when_ready (drops : List RW) (rs : List Nat) (counter : Option Nat) (childOK : Bool)
     (count k : Nat) : (pick false drops rs counter childOK count).1 ≠ .dropped k := by
